@@ -127,7 +127,75 @@ func c16CheckResult(c *vf.Ctx, sub string, i int, seq []string, pos int, res c16
 func runC16(c *vf.Ctx) {
 	c16Sequential(c)
 	c16Concurrent(c)
+	c16HostNoTopic(c)
 	c16Pubsub(c)
+}
+
+// a receiver created with a libp2p host but without a pubsub topic (announcements arrive
+// over HTTP only): every call sequence with a Close behaves as for the host-less receiver
+func c16HostNoTopic(c *vf.Ctx) {
+	const sub = "host-without-topic"
+	if !c.Active(sub) {
+		return
+	}
+	n := c.N(16, 200)
+	for i := 0; i < n; i++ {
+		if !c.Mine(sub, i) || c16TooManyHangs() {
+			continue
+		}
+		r := c.Rand(sub, i)
+		seq := []string{}
+		for k := r.Intn(4); k > 0; k-- {
+			seq = append(seq, c16Alphabet[r.Intn(len(c16Alphabet))])
+		}
+		seq = append(seq, "Close")
+		for k := r.Intn(3); k > 0; k-- {
+			seq = append(seq, c16Alphabet[r.Intn(len(c16Alphabet))])
+		}
+		c.Cur(sub, i, "host, no topic: "+strings.Join(seq, ","))
+		wit := func() any { return map[string]any{"receiver": "NewReceiver(host, \"\")", "sequence": seq} }
+		h, err := newHost()
+		if err != nil {
+			c.Inconclusive(sub, i, "host-create", err.Error(), nil)
+			continue
+		}
+		rc, err := announce.NewReceiver(h, "")
+		if err != nil {
+			c.Fail(sub, i, "receiver-create-error", err.Error(), wit())
+			h.Close()
+			continue
+		}
+		time.Sleep(time.Duration(r.Intn(2000)) * time.Microsecond) // whatever the receiver started gets to run
+		closed := false
+		ok := true
+		for k, op := range seq {
+			res := c16Do(rc, op, k)
+			if !c16CheckResult(c, sub, i, seq, k, res, closed, wit) {
+				ok = false
+				break
+			}
+			if op == "Close" {
+				closed = true
+			}
+		}
+		if ok {
+			for k, op := range []string{"Uncache", "Direct", "Next", "Close"} {
+				if !c16CheckResult(c, sub, i, append(append([]string(nil), seq...), "then:"+op), len(seq)+k, c16Do(rc, op, 100+k), true, wit) {
+					break
+				}
+			}
+			for _, g := range vf.LibGoroutines() {
+				if strings.Contains(g, "announce.(*Receiver).watch") {
+					c.Fail(sub, i, "watcher-still-running", g, wit())
+					break
+				}
+			}
+		}
+		h.Close()
+		c.Eval(1)
+		c.Inc("host_without_topic_runs")
+		c.Distinct(sub, strings.Join(seq, ","))
+	}
 }
 
 // all sequences up to length L
